@@ -32,6 +32,8 @@ func runC12(c *Ctx) {
 	r.Rule("C12.R1", "one section per transceiver: every iteration of a generator's loop over local transceivers appends exactly one mediaSection{id: t.Mid(), transceivers: {t}} for the loop's own t; CreateOffer's loop gives every transceiver without a mid one (SetMid on the loop variable) and dominates both generator calls outside Plan-B, over the same slice", 6)
 	r.Rule("C12.R2", "application section: for every valuation of (AlwaysNegotiateDataChannels, dataChannelsRequested, includeUnmatched, already-present, Plan-B) the number of data sections appended outside the remote loop is 1 iff (Always || requested != 0) && includeUnmatched && !alreadyPresent, else 0; the already-present flag is true exactly after a remote application section was appended; dataChannelsRequested is only ever incremented, in CreateDataChannel, once on every success path", 18)
 	r.Rule("C12.R3", "addSenderSDP: msid = \"msid:\" + track.StreamID() + \" \" + track.ID(); every WithMediaSource ssrc and every ssrc-group member is a field of the loop variable over sender.GetParameters().Encodings (FID: SSRC, RTX.SSRC; FEC-FR: SSRC, FEC.SSRC), labels are (StreamID, ID) of the sender's track; GetParameters fills SSRC/RTX/FEC from trackEncoding.ssrc/ssrcRTX/ssrcFEC; Send stores parameters.Encodings[idx].{SSRC,RTX.SSRC,FEC.SSRC} into the same encoding's fields and stream; Send's only caller passes sender.GetParameters(); the SSRC fields are written only in addEncoding, Send and configureRTXAndFEC", 18)
+	r.Rule("C12.R5", "CreateDataChannel: no possibly-failing return is reachable after dataChannelsRequested was incremented, except under `sctpTransport.State() == SCTPTransportStateConnected` (a rejected CreateDataChannel must not make the next offer carry an application section)", 1)
+	r.Rule("C12.R6", "sibling agreement: each of trackEncoding.ssrcRTX / ssrcFEC is given a non-zero value in addEncoding under a MediaEngine predicate and cleared in configureRTXAndFEC under the negation of the SAME predicate; the two fields use different predicates", 3)
 	r.Rule("C12.R4", "the direction attribute and the media kind of an accepted section come from the section's first transceiver (Direction().String(), kind.String())", 2)
 	r.NotCovered = append(r.NotCovered,
 		"that no transceiver is lost between the API call (AddTrack/AddTransceiver…) and the offer",
@@ -42,6 +44,8 @@ func runC12(c *Ctx) {
 
 	c12Rules(c)
 	c06Agree386(c, "C12.R1", c12Rules)
+	c12R5(c) // c12b.go
+	c12R6(c)
 	c06Dump(c)
 }
 
